@@ -47,6 +47,11 @@ def rtSizes (kind : String) (n : Nat) : Option Nat :=
   | "vec_u64" => some (wsVec (List.replicate n 8))
   | "slice_u8" => some (wsSlice (List.replicate n 1))
   | "slice_u32" => some (wsSlice (List.replicate n 4))
+  | "slice_string" => some (wsSlice ((List.range n).map wsString))
+  | "slice_vec_u32" => some (wsSlice ((List.range n).map fun i => wsVec (List.replicate i 4)))
+  | "vec_vec_u32" => some (wsVec ((List.range n).map fun i => wsVec (List.replicate i 4)))
+  | "opt_string" => some (wsOption (some (wsString n)))
+  | "box_vec_u32" => some (wsVec (List.replicate n 4))
   | "vec_string" => some (wsVec ((List.range n).map wsString))
   | "opt_none" => some (wsOption none)
   | "opt_u32" => some (wsOption (some 4))
